@@ -16,6 +16,7 @@
 //	ad <0|1> <user> <pass> <tail> T st <stream> ch <n> <size>*n
 //	udp T d <datagram>
 //	ubp T h <host> p <port> pl <payload>
+//	relay <paced|burst|gated> T ds <n> <datagram>*n     (see relay.go)
 package main
 
 import (
@@ -473,6 +474,13 @@ func (e *emitter) execLine(line string) error {
 		}
 		cs, obs := execUBP(string(vc.UnHex(toks[2])), p, vc.UnHex(toks[6]))
 		e.emit(prefix, "ubp", cs, obs, "corpus")
+	case "relay":
+		mode, ds, err := parseRelayToks(toks)
+		if err != nil {
+			return err
+		}
+		cs, obs := execRelay(mode, ds)
+		e.emit(prefix, "relay-"+mode, cs, obs, "corpus")
 	default:
 		return errors.New("unknown mode " + toks[0])
 	}
@@ -514,6 +522,7 @@ func main() {
 		genAuth(e, r.Fork(), thorough)
 		genUDP(e, r.Fork(), thorough)
 		genBuild(e, r.Fork(), thorough)
+		genRelay(e, r.Fork(), thorough)
 	}
 	e.out.Finish(*stats, nil)
 }
